@@ -21,34 +21,34 @@ import (
 type RegistryFunc func() (types map[string]reflect.Type, globals map[string]any, funcs map[string]any, oneOf []string)
 
 type Pkg struct {
-	Name       string
-	ImportPath string
-	Class      string
-	Spec       string
-	Types      map[string]reflect.Type
-	Globals    map[string]any
-	Funcs      map[string]any
-	OneOf      map[string]bool
-	APIType    reflect.Type
-	ClientType reflect.Type
-	Ops        []*Op
-	SecFields  []int
-	MwField    int
-	CORSField  int
-	SpecField  int
+	Name          string
+	ImportPath    string
+	Class         string
+	Spec          string
+	Types         map[string]reflect.Type
+	Globals       map[string]any
+	Funcs         map[string]any
+	OneOf         map[string]bool
+	APIType       reflect.Type
+	ClientType    reflect.Type
+	Ops           []*Op
+	SecFields     []int
+	MwField       int
+	CORSField     int
+	SpecField     int
 	NotFoundField int
-	YieldFunc  map[int]string // yield site -> function name
-	PkgID      int
-	UsesSync   bool
-	globalInit map[string]reflect.Value
-	globalMaps []string
-	NoRace     bool // goroutines or channel operations of its own: orderings the race detector does not model
-	UnsimSync  bool // uses synchronisation the simulator does not model (atomic, Once, Cond, WaitGroup, ...)
-	Swagger    *openapi3.Swagger
-	BasePathFlag string
-	Discr      map[string]*values.DiscrInfo
-	Schemes    []Scheme // security schemes of the spec, sorted by name
-	Base       string // base path the router serves under (read from the generated router)
+	YieldFunc     map[int]string // yield site -> function name
+	PkgID         int
+	UsesSync      bool
+	globalInit    map[string]reflect.Value
+	globalMaps    []string
+	NoRace        bool // goroutines or channel operations of its own: orderings the race detector does not model
+	UnsimSync     bool // uses synchronisation the simulator does not model (atomic, Once, Cond, WaitGroup, ...)
+	Swagger       *openapi3.Swagger
+	BasePathFlag  string
+	Discr         map[string]*values.DiscrInfo
+	Schemes       []Scheme // security schemes of the spec, sorted by name
+	Base          string   // base path the router serves under (read from the generated router)
 }
 
 func normName(s string) string {
